@@ -351,9 +351,22 @@ class SoftwareSwitchBase (object):
 
     body = handler(ofp, connection=connection)
     if body is not None:
-      reply = ofp_stats_reply(xid=ofp.xid, type=ofp.type, body=body)
-      self.log.debug("Sending stats reply %s", reply)
-      self.send(reply)
+      # A list body that does not fit into one message goes out in parts
+      parts = [body]
+      if isinstance(body, list):
+        parts = [[]]
+        size = 12
+        for entry in body:
+          if parts[-1] and size + len(entry) > 0xffff:
+            parts.append([])
+            size = 12
+          parts[-1].append(entry)
+          size += len(entry)
+      for i,part in enumerate(parts):
+        reply = ofp_stats_reply(xid=ofp.xid, type=ofp.type, body=part)
+        reply.is_last_reply = (i == len(parts) - 1)
+        self.log.debug("Sending stats reply %s", reply)
+        self.send(reply)
 
   def _rx_set_config (self, config, connection):
     self.miss_send_len = config.miss_send_len
